@@ -51,9 +51,12 @@ static Samples gen_samples(vf::Tape& t) {
 
 static size_t run_algo(int algo, vf::Tape& t, void* dict, size_t cap, const Samples& s, std::string* pdesc, unsigned threads, ZDICT_params_t zp, uint64_t pseed) {
     gen::Xs px(pseed);   // parameter choices come from a seed so that a second run gets identical parameters
-    const void* sb = s.buf.empty() ? (const void*)"" : (const void*)s.buf.data();
+    // exact-size heap blocks: one byte read past the samples, or one entry past the sizes array, is an ASan report
+    vf::Buf sbuf(s.buf.data(), s.buf.size());
+    vf::Buf zbuf((const uint8_t*)s.sizes.data(), s.sizes.size() * sizeof(size_t));
+    const void* sb = s.buf.empty() ? (const void*)"" : (const void*)sbuf.p;
     static const size_t zero_sizes[1] = {0};
-    const size_t* sz = s.sizes.empty() ? zero_sizes : s.sizes.data();
+    const size_t* sz = s.sizes.empty() ? zero_sizes : (const size_t*)zbuf.p;
     unsigned n = (unsigned)s.sizes.size();
     char b[200];
     (void)t;
